@@ -536,6 +536,17 @@ impl Database {
                     loop {
                         let row_key = cursor.key()?;
                         let row_data = cursor.value()?;
+
+                        // rows are tombstoned in place: a deleted row gets no index entry
+                        if row_data.len() > crate::mvcc::RecordHeader::SIZE
+                            && crate::mvcc::RecordHeader::from_bytes(row_data).is_deleted()
+                        {
+                            if !cursor.advance()? {
+                                break;
+                            }
+                            continue;
+                        }
+
                         let user_data = crate::database::dml::mvcc_helpers::get_user_data(row_data);
 
                         let row_id = u64::from_be_bytes(
@@ -555,7 +566,8 @@ impl Database {
                                 col_idx,
                                 col_def.data_type(),
                             )?;
-                            if value.is_null() {
+                            // same rule as INSERT: only unique indexes leave out rows with NULLs
+                            if value.is_null() && is_unique {
                                 all_non_null = false;
                                 key_buffer.truncate(key_start as usize);
                                 break;
